@@ -67,7 +67,7 @@ def run(tier, replay):
                 f.write(json.dumps(b) + "\n")
         # (2) behaviours of the model + seeded random histories on the real code
         lib.kverif(GROUP, ["c39", "--out", obs, "--behaviours", f"{wd}/beh.ndjson",
-                           "--random", 60 if tier == "quick" else 1500, "--len", 25 if tier == "quick" else 40,
+                           "--random", 60 if tier == "quick" else 3000, "--len", 25 if tier == "quick" else 40,
                            "--seed", lib.seed()], timeout=3000)
     lines = lib.read_lines(obs)
     _lean(lines, f"{wd}/obs-lean.ndjson")
